@@ -104,7 +104,8 @@ Proof.
   destruct (forallb is_ts l); [intros H; inversion H; reflexivity|].
   destruct (forallb is_td l); [intros H; inversion H; reflexivity|].
   destruct c0;
-    try (match goal with |- (if ?b then _ else _) = _ -> _ => destruct b end; intros H; inversion H; reflexivity).
+    repeat match goal with |- (if ?b then _ else _) = _ -> _ => destruct b end;
+    try discriminate; intros H; inversion H; reflexivity.
 Qed.
 
 Lemma pd_index_length s ix : pd_index s = Some ix -> length (ilabels ix) = length (splabels s).
@@ -316,13 +317,6 @@ Proof.
 Qed.
 
 (* ------------------------------------------------------------------ the index is the span *)
-(* label lists pandas leaves alone: None only alone, ints and floats not mixed *)
-Definition label_stable (cs : list cell) : bool :=
-  (forallb is_none cs || negb (existsb is_none cs))
-  && negb (existsb is_int cs && existsb is_flt cs && forallb is_num_or_none cs).
-Definition span_stable (s : span) : bool :=
-  match spkind s with SRange | SPandas _ _ => true | _ => label_stable (splabels s) end.
-
 Lemma none_to_nan_id cs : existsb is_none cs = false -> map none_to_nan cs = cs.
 Proof.
   induction cs as [|c r IH]; [reflexivity|]. cbn [existsb map]. intros H.
@@ -365,7 +359,8 @@ Proof.
   destruct (forallb is_ts l); [intros H; inversion H; reflexivity|].
   destruct (forallb is_td l); [intros H; inversion H; reflexivity|].
   destruct c0;
-    try (match goal with |- (if ?b then _ else _) = _ -> _ => destruct b end; intros H; inversion H; reflexivity).
+    repeat match goal with |- (if ?b then _ else _) = _ -> _ => destruct b end;
+    try discriminate; intros H; inversion H; reflexivity.
 Qed.
 
 Lemma pd_index_stable s ix : pd_index s = Some ix -> span_stable s = true -> ilabels ix = splabels s.
@@ -449,6 +444,36 @@ Proof.
     + intros H. split; [apply H; left; reflexivity|intros x Hx; apply H; right; assumption].
 Qed.
 
+Lemma filter_all_id {A} (f : A -> bool) l : (forall x, In x l -> f x = true) -> filter f l = l.
+Proof.
+  induction l as [|a r IH]; intros H; [reflexivity|]. cbn [filter]. rewrite (H a (or_introl eq_refl)).
+  f_equal. apply IH. intros x Hx. apply H. right; assumption.
+Qed.
+
+Lemma init_params_pt k : mem_s k init_params = false ->
+  mem_s k reserved_params = false /\ mem_s k opaque_params = false /\ String.eqb k "dtype" = false.
+Proof.
+  intros H. apply mem_s_false in H. unfold init_params in H. split; [|split].
+  - apply mem_s_false. intros H'. apply H. apply in_or_app. left. assumption.
+  - apply mem_s_false. intros H'. apply H. apply in_or_app. right. apply in_or_app. left. assumption.
+  - destruct (String.eqb k "dtype") eqn:E; [|reflexivity]. apply String.eqb_eq in E. exfalso. apply H. subst.
+    apply in_or_app. right. apply in_or_app. right. left. reflexivity.
+Qed.
+
+Lemma init_params_split cols : existsb (fun col => mem_s (pcname col) init_params) cols = false ->
+  existsb (fun col => mem_s (pcname col) reserved_params) cols = false /\
+  existsb (fun col => mem_s (pcname col) opaque_params) cols = false /\
+  existsb (fun col => String.eqb (pcname col) "dtype") cols = false /\
+  filter (fun col => negb (String.eqb (pcname col) "dtype")) cols = cols.
+Proof.
+  intros H. assert (P := proj1 (existsb_false_iff _ _) H). cbv beta in P.
+  split; [|split; [|split]].
+  - apply existsb_false_iff. intros x Hx. apply (init_params_pt _ (P x Hx)).
+  - apply existsb_false_iff. intros x Hx. apply (init_params_pt _ (P x Hx)).
+  - apply existsb_false_iff. intros x Hx. apply (init_params_pt _ (P x Hx)).
+  - apply filter_all_id. intros x Hx. destruct (init_params_pt _ (P x Hx)) as [_ [_ E]]. rewrite E. reflexivity.
+Qed.
+
 Lemma has_dup_false l : NoDup l -> has_dup l = false.
 Proof.
   induction 1 as [|a l Ha Hl IH]; [reflexivity|]. cbn [has_dup]. rewrite IH, orb_false_r.
@@ -494,7 +519,8 @@ Proof.
     apply in_app_or in Hx as [Hx|Hx].
     - destruct st; [|destruct Hx]. destruct Hx as [<-|[]]. reflexivity.
     - destruct it; [|destruct Hx]. destruct Hx as [<-|[]]. reflexivity. }
-  rewrite E1. rewrite Hc, (has_dup_false _ (wf_nodup _ _ W)).
+  destruct (init_params_split _ E1) as [P1 [P2 [P3 P4]]]. cbv zeta.
+  rewrite P1, P2, P3, P4. rewrite Hc, (has_dup_false _ (wf_nodup _ _ W)).
   assert (E2 : cstrict c && existsb (fun col => negb (mem_s (pcname col) (fnames m))) (export_cols st it ii m) = false).
   { destruct (cstrict c) eqn:S; [|reflexivity]. destruct (Hstrict eq_refl) as [-> ->]. cbn [andb].
     rewrite (existsb_pcname (fun k => negb (mem_s k (fnames m)))), export_cols_names, Hall. cbn [app]. rewrite app_nil_r.
@@ -735,12 +761,6 @@ Proof.
 Qed.
 
 (* ------------------------------------------------------------------ the statements of Props/C19.v *)
-Lemma filter_all_id {A} (f : A -> bool) l : (forall x, In x l -> f x = true) -> filter f l = l.
-Proof.
-  induction l as [|a r IH]; intros H; [reflexivity|]. cbn [filter]. rewrite (H a (or_introl eq_refl)).
-  f_equal. apply IH. intros x Hx. apply H. right; assumption.
-Qed.
-
 Lemma export_columns_in_model_order st it ii m ix :
   wf_model m (length (splabels (fspan m))) -> pd_index (fspan m) = Some ix ->
   exists t, model_to_table st it ii m = TOk t /\ tindex t = ix /\
@@ -989,7 +1009,8 @@ Proof.
     apply in_app_or in Hx as [Hx|Hx].
     - destruct st; [|destruct Hx]. destruct Hx as [<-|[]]. reflexivity.
     - destruct it; [|destruct Hx]. destruct Hx as [<-|[]]. reflexivity. }
-  rewrite E1. rewrite Hc, (has_dup_false _ (wf_nodup _ _ W)).
+  destruct (init_params_split _ E1) as [P1 [P2 [P3 P4]]]. cbv zeta.
+  rewrite P1, P2, P3, P4. rewrite Hc, (has_dup_false _ (wf_nodup _ _ W)).
   assert (E2 : cstrict c && existsb (fun col => negb (mem_s (pcname col) (fnames m))) (export_cols st it ii m) = false).
   { destruct (cstrict c) eqn:S; [|reflexivity]. destruct (Hstrict eq_refl) as [-> ->]. cbn [andb].
     rewrite (existsb_pcname (fun k => negb (mem_s k (fnames m)))), export_cols_names, Hall. cbn [app]. rewrite app_nil_r.
